@@ -272,6 +272,15 @@ class HighOrderMutator(FirstOrderMutator):
             yield applied_mutations, mutant
             self._finish_generators(generators)
 
+    def mutation_count(  # noqa: D102
+        self,
+        target_ast: ast.AST,
+        module: types.ModuleType,
+    ) -> int:
+        # One mutant per combination of mutations that the strategy selects, not one
+        # per first-order mutation.
+        return Mutator.mutation_count(self, target_ast, module)
+
     def _generate_all_mutations(
         self,
         module: types.ModuleType,
